@@ -260,3 +260,61 @@ def interpolation_rule(ctx, lib, rid):
                 r.fail(con, f"row:{bad[1]}", f.file, f.lineno, f"{ci.name}.Get_beam_N_e_pg", f"dim {dim}: row {bad[0]} of N applied to the nodal values of an admissible polynomial field is not the field {bad[1]}(x) (with ry = -w', rz = v'): consistent nodal loads and the mass matrix use a different interpolation than the stiffness")
             else:
                 r.ok(f"{ci.name} dim {dim}: N reproduces ({', '.join(names)})")
+
+
+def operator_frame_rule(ctx, lib, rid):
+    """'a member gives the same response in its own axes whatever its inclination': every operator a beam group hands
+    out in GLOBAL dofs (shape functions N, strain operator B, shear-recovery operator) is the operator written in the
+    axes of the member times the frame block of `_Compute_P_e_pg`, in the plane and in space.  Each operator is
+    interpreted twice on the same element - with the frame block of an aligned member (identity) and with a fully
+    symbolic block - and the two results must satisfy  M[P] == M[identity] @ P  entry by entry."""
+    repo = ctx.repo
+    r = ctx.rule(rid, "beam operators in global dofs: N, B and the shear-recovery operator interpreted with a symbolic frame block P equal (the operator of the aligned member) @ P, for plane and space frames", min_instances=16)
+    for ci, seg, timo in beam_classes(repo):
+        for dim in (2, 3):
+            dof_n = {2: 3, 3: 6}[dim]
+            for op in ("Get_beam_N_e_pg", "Get_beam_B_e_pg", "Get_beam_shear_B_e_pg"):
+                f = repo.lookup_method(ci, op)
+                if f is None:
+                    if op == "Get_beam_shear_B_e_pg":
+                        continue
+                    raise AnchorMissing(f"{ci.name}.{op}")
+                con = f"{ci.qualname}.{op}[dim={dim}]"
+                r.instance(fn=con)
+                res = []
+                for symbolic in (False, True):
+                    obj, ed, xs, scale, lo = make_obj(lib, ci, seg, dim)
+                    n = dof_n * ed.nPe
+                    if symbolic:
+                        Pb = [[Poly.var(f"P{a}_{b}") for b in range(n)] for a in range(n)]
+                        obj.attrs["_Compute_P_e_pg"] = lambda beamStructure=None, Pb=Pb, n=n: XFe((1, 1, n, n), [Pb[a][b] for a in range(n) for b in range(n)])
+                    I = Interp(repo, max_steps=4_000_000)
+                    I.call_hook = fe_hook_full
+                    bs = SimpleNamespace(dim=dim, dof_n=dof_n, beams=[])
+                    try:
+                        out = I.call_function(f, [bs], self_obj=obj)
+                    except XRaise as e:
+                        out = e
+                    res.append(out)
+                M0, M1 = res
+                if isinstance(M0, XRaise) or isinstance(M1, XRaise):
+                    r.fail(con, "raises", f.file, f.lineno, f"{ci.name}.{op}", f"dim {dim}: raises {M0 if isinstance(M0, XRaise) else M1}")
+                    continue
+                if M0 is None and M1 is None:
+                    r.ok(f"{ci.name}.{op} dim {dim}: not provided")
+                    continue
+                M0, M1 = XArray.from_nested(M0), XArray.from_nested(M1)
+                rows = M0.shape[-2]
+                bad = None
+                if M0.shape != M1.shape or M0.shape[-1] != n:
+                    bad = f"shapes {M0.shape} / {M1.shape}"
+                else:
+                    for a in range(rows):
+                        for b in range(n):
+                            want = sum((_to_poly(M0[0, 0, a, c]) * Pb[c][b] for c in range(n)), Poly())
+                            if bad is None and not is_zero(_to_poly(M1[0, 0, a, b]) - want):
+                                bad = f"entry [{a}, {b}] is {M1[0, 0, a, b]!r}, expected {want!r}"
+                if bad:
+                    r.fail(con, "frame", f.file, f.lineno, f"{ci.name}.{op}", f"dim {dim}: with a symbolic frame block P the operator is not (operator of the aligned member) @ P: {bad}: the dofs of an inclined member are read as if they were written in its own axes")
+                else:
+                    r.ok(f"{ci.name}.{op} dim {dim}: M[P] == M[I] @ P ({rows} x {n})")
